@@ -1334,6 +1334,8 @@ def _client_evaluated(ctx):
 
 
 MUTANTS = [
+    Mutant("interim-range-through-a-status-local-one-too-wide", P, '        if 100 <= self.response.code < 200:\n', '        answer = self.response\n        status = answer.code\n        if 100 <= status <= 200:\n', expect_rule="parser/interim-range"),
+    Mutant("transmission-loss-reported-through-a-named-wrong-failure", P, '        self._finishedRequest.errback(Failure(RequestTransmissionFailed([reason])))\n', '        lost = Failure(ResponseFailed([reason]))\n        self._finishedRequest.errback(lost)\n', expect_rule="protocol/lost-drains"),
     Mutant("no-body-verdict-flag-read-the-wrong-way", P, "        if self.response.code in self.NO_BODY_CODES or self.request.method == b\"HEAD\":\n            self.response.length = 0\n", "        bodyless = None\n        if self.response.code in self.NO_BODY_CODES or self.request.method == b\"HEAD\":\n            bodyless = True\n        if bodyless is None:\n            self.response.length = 0\n", expect_rule="parser/no-body-branch"),
     Mutant("interim-reset-keeps-connection-headers", P, "            self.connectionMade()\n            del self.response\n",
            "            self.headers = Headers()\n            self.state = STATUS\n            self._partialHeader = None\n            del self.response\n",
@@ -1387,6 +1389,8 @@ MUTANTS = [
     Mutant("no-body-codes-drop-304", P, "    NO_BODY_CODES = {NO_CONTENT, NOT_MODIFIED}", "    NO_BODY_CODES = {NO_CONTENT}"),
 ]
 SILENT = [
+    Silent("interim-test-on-locals-naming-the-response-and-its-code", P, '        if 100 <= self.response.code < 200:\n', '        answer = self.response\n        status = answer.code\n        if 100 <= status < 200:\n'),
+    Silent("transmission-loss-reported-through-a-named-failure", P, '        self._finishedRequest.errback(Failure(RequestTransmissionFailed([reason])))\n', '        lost = Failure(RequestTransmissionFailed([reason]))\n        self._finishedRequest.errback(lost)\n'),
     Silent("no-body-verdict-carried-in-a-local-flag", P, "        if self.response.code in self.NO_BODY_CODES or self.request.method == b\"HEAD\":\n            self.response.length = 0\n", "        bodyless = None\n        if self.response.code in self.NO_BODY_CODES or self.request.method == b\"HEAD\":\n            bodyless = True\n        if bodyless is not None:\n            self.response.length = 0\n"),
     Silent("interim-reset-through-the-base-class", P, "            self.connectionMade()\n            del self.response\n", "            HTTPParser.connectionMade(self)\n            del self.response\n"),
     Silent("identity-decoder-remaining-length-by-subtraction", H, "            self.dataCallback = self.finishCallback = None\n            self.contentLength = 0\n\n            dataCallback(data[:contentLength])",
